@@ -774,9 +774,9 @@ def report_by_family(ctx, cases, results, fails, transform, rounds=None, reps=No
     candidates of one round are checked in ONE behaviour_check batch, i.e. by TLC against the machine) and
     report one violation per distinct key  family:signature:normal-form-of-the-shrunk-program."""
     quick = ctx.quick
-    rounds = rounds if rounds is not None else (1 if quick else 4)
+    rounds = rounds if rounds is not None else (1 if quick else 3)
     reps = reps or (1 if quick else 2)
-    cands_per = cands_per or (14 if quick else 24)
+    cands_per = cands_per or (14 if quick else 20)
     max_states = max_states or (8 if quick else 16)
     groups = {}
     for idx, kind, msg in fails:
